@@ -238,15 +238,47 @@ class SymPattern(object):
             return self._concrete("fullmatch", string, *a, **kw)
         raise Unsupported("re.fullmatch on a symbolic string")
 
-    def finditer(self, string, *a, **kw):
+    def finditer(self, string, pos=0, endpos=None):
         if isinstance(string, str):
-            return self._concrete("finditer", string, *a, **kw)
-        raise Unsupported("re.finditer on a symbolic string")
+            if endpos is None:
+                return self.real.finditer(string, pos)
+            return self.real.finditer(string, pos, endpos)
+        return self._finditer(string, pos, endpos)
 
-    def findall(self, string, *a, **kw):
+    def _finditer(self, string, pos, endpos):
+        # CPython's scanner: successive non-overlapping matches, each the first anchored match at or after the end of
+        # the previous one (an empty match advances by one letter)
+        sp = S()
+        if isinstance(pos, SInt):
+            pos = sp.realize(pos)
+        i = max(pos, 0)
+        while i <= string.maxlen:
+            if not (i <= string.n):
+                break
+            m = self.match(string, i, endpos)
+            if m is None:
+                i += 1
+                continue
+            yield m
+            e = m.end()
+            if isinstance(e, SInt):
+                e = sp.realize(e)
+            i = e if e > i else i + 1
+
+    def findall(self, string, pos=0, endpos=None):
         if isinstance(string, str):
-            return self._concrete("findall", string, *a, **kw)
-        raise Unsupported("re.findall on a symbolic string")
+            if endpos is None:
+                return self.real.findall(string, pos)
+            return self.real.findall(string, pos, endpos)
+        out = []
+        for m in self._finditer(string, pos, endpos):
+            if self.groups == 0:
+                out.append(m.group(0))
+            elif self.groups == 1:
+                out.append(m.group(1))
+            else:
+                out.append(m.groups())
+        return out
 
     def sub(self, repl, string, *a, **kw):
         if isinstance(string, str):
